@@ -16,7 +16,7 @@ vars == <<t, d>>
 Base(ln, w, lb, fold, rem, q) ==
     [ln |-> ln, width |-> w, degs |-> [i \in 1..w |-> IF i % 2 = 0 /\ lb >= 1 THEN 2 ELSE 1], cycles |-> <<4>>,
      pcol |-> [i \in 1..w |-> 0], k |-> 1, nasserts |-> 1, q |-> q, lb |-> lb, grind |-> 0,
-     fold |-> fold, rem |-> rem, ext |-> 1, bits |-> 64, auxd |-> <<>>, auxr |-> 0, lag |-> 0, nauxa |-> 0]
+     fold |-> fold, rem |-> rem, ext |-> 1, bits |-> 64, auxd |-> <<>>, auxr |-> 0, lag |-> 0, nauxa |-> 0, meta |-> 0]
 
 \* a base statement whose highest-degree constraint also carries a periodic factor (degree 3, one cycle => blowup 4)
 BaseP == [Base(4, 2, 2, 2, 3, 10) EXCEPT !.degs = <<1, 3>>, !.pcol = <<0, 1>>, !.cycles = <<8>>]
@@ -59,6 +59,7 @@ Variants(s) ==
     \cup {[s EXCEPT !.auxr = x] : x \in {0, 1, 2, 5}}
     \cup {[s EXCEPT !.lag = x] : x \in {0, 1}}
     \cup {[s EXCEPT !.nauxa = x] : x \in 1..3}
+    \cup {[s EXCEPT !.meta = x] : x \in {0, 1, 7, 8}}      \* trace metadata: none, below / at / above one seed element of the 64-bit field
 
 Next == /\ d < Depth
         /\ \E s \in Variants(t) : s # t /\ Admissible(s) /\ t' = s
